@@ -497,7 +497,7 @@ func init() {
 		const a = "lib/authenticode"
 		const s = "lib/signdeb"
 		// helper predicates the translated conditions refer to (Go's strings.HasPrefix / HasSuffix on byte strings)
-		o.f("Fixpoint has_prefix (l p : list Z) : bool :=\n  match p, l with\n  | [], _ => true\n  | x :: p', y :: l' => (x =? y) && has_prefix l' p'\n  | _ :: _, [] => false\n  end.\n")
+		o.f("Fixpoint has_prefix (l p : list Z) {struct p} : bool :=\n  match p, l with\n  | [], _ => true\n  | x :: p', y :: l' => (x =? y) && has_prefix l' p'\n  | _ :: _, [] => false\n  end.\n")
 		o.f("Definition has_suffix (l s : list Z) : bool := has_prefix (rev l) (rev s).\n\n")
 		o.f("(* ---- PowerShell: lib/authenticode/powershell.go *)\n")
 		o.constString(a, "psBegin", "ps_begin")
